@@ -21,6 +21,7 @@ RULE = ("Engine 'score': Hypothesis draws an image pair (correlated with drawn S
         "FSC). Engine 'peak': displaced copies with mild noise; arg-max of landscape(upsample=u) vs the shift reported "
         "by align, for all four models. Engine 'loader': loader.score / construct_landscape row i vs the model applied "
         "to subtomogram i. Non-trivial = mask or cutoff or tilt present, or a non-cubic / odd box.")
+RULE += (" " + "Also: zero-range alignment of 2-3 template models against the single-template scores, and engine 'peak-wide' (landscapes for ranges from half the box to beyond it).")
 TOLERANCES = {"score vs reference": "2e-4", "range": "1e-5", "agreement score/landscape/align": "2e-4",
               "landscape arg-max vs align shift": "0.5/u + 0.2 px (FSC: 0.5/u + 0.5)"}
 ASSUMPTIONS = ["the wedge mask used by the reference is the model's own get_missing_wedge_mask (its geometry is C08's business)",
